@@ -212,9 +212,59 @@ func recoverCase(t0, t2, theta, delta, c1, c3 int64) {
 	t3 := t2 - theta + delta + c3
 	off := csptp.ClockOffset(tm(t0), tm(t1), tm(t2), tm(t3), time.Duration(c1), time.Duration(c3))
 	mpd := csptp.MeanPathDelay(tm(t0), tm(t1), tm(t2), tm(t3), time.Duration(c1), time.Duration(c3))
-	tags := "nt"
+	tags := "nt" + timeTag(t0)
 	w.Case("csptp.recover", tags, lib.V(lib.I(t0), lib.I(t2), lib.I(theta), lib.I(delta), lib.I(c1), lib.I(c3)),
 		lib.V(lib.I(int64(off)), lib.I(int64(mpd))))
+}
+
+// one-way delays d1, d2 with a UTC correction: C2SDelay / S2CDelay must give theta+d1 and -theta+d2
+func recoverDelays(t0, t2, theta, d1, d2, c1, c3, utc int64) {
+	t1 := t0 + theta + d1 + c1 + utc
+	t3 := t2 - theta + d2 + c3 - utc
+	c2s := csptp.C2SDelay(tm(t0), tm(t1), time.Duration(c1), time.Duration(utc))
+	s2c := csptp.S2CDelay(tm(t2), tm(t3), time.Duration(c3), time.Duration(utc))
+	tags := "nt"
+	if utc != 0 {
+		tags += ",utc"
+	}
+	w.Case("csptp.recover_delays", tags+timeTag(t0), lib.V(lib.I(t0), lib.I(t2), lib.I(theta), lib.I(d1), lib.I(d2), lib.I(c1), lib.I(c3), lib.I(utc)),
+		lib.V(lib.I(int64(c2s)), lib.I(int64(s2c))))
+}
+
+const (
+	ts2020 = int64(1577836800) * 1000000000
+	ts2024 = int64(1717243200) * 1000000000 // 2024-06-01T12:00:00Z
+	ts2040 = int64(2208988800) * 1000000000
+	safe   = int64(1) << 61 // |offsets| added to a time by the recover cases stay below this
+)
+
+func timeTag(t int64) string {
+	switch {
+	case t >= ts2020 && t <= ts2040:
+		return ",modern-time"
+	case t > math.MaxInt64-2*safe || t < math.MinInt64+2*safe:
+		return ",extreme-time"
+	}
+	return ""
+}
+
+// absolute Unix times in ns for the formula cases: present-day, the epoch, the ends of what
+// time.Unix(0, ns) can express (leaving room for the offsets added on top), anything
+func genTime(r *lib.Rng) int64 {
+	switch r.Intn(8) {
+	case 0:
+		return ts2024 + r.Range(0, 999999999)
+	case 1, 2, 3:
+		return r.Range(ts2020, ts2040)
+	case 4:
+		return lib.Pick(r, int64(0), 1, -1, ts2024, 1<<60, 1<<60+1, -(1 << 60))
+	case 5:
+		return math.MaxInt64 - safe - r.Range(0, 1000000000)
+	case 6:
+		return math.MinInt64 + safe + r.Range(0, 1000000000)
+	default:
+		return r.Range(math.MinInt64+safe, math.MaxInt64-safe)
+	}
 }
 
 func genI64(r *lib.Rng) int64 {
@@ -277,6 +327,8 @@ func main() {
 				interval(lib.ParseI(f[0]))
 			case "csptp.formulas":
 				formulas(lib.ParseI(f[0]), lib.ParseI(f[1]), lib.ParseI(f[2]), lib.ParseI(f[3]), lib.ParseI(f[4]), lib.ParseI(f[5]), lib.ParseI(f[6]))
+			case "csptp.recover_delays":
+				recoverDelays(lib.ParseI(f[0]), lib.ParseI(f[1]), lib.ParseI(f[2]), lib.ParseI(f[3]), lib.ParseI(f[4]), lib.ParseI(f[5]), lib.ParseI(f[6]), lib.ParseI(f[7]))
 			case "csptp.recover":
 				recoverCase(lib.ParseI(f[0]), lib.ParseI(f[1]), lib.ParseI(f[2]), lib.ParseI(f[3]), lib.ParseI(f[4]), lib.ParseI(f[5]))
 			}
@@ -299,6 +351,10 @@ func main() {
 		drift(p[0], p[1])
 	}
 	driftAdd(500000, 3*3600e9, 3*3600e9)
+	recoverCase(ts2024, ts2024+1500000, 37, 500000, 3<<16, 4<<16)
+	recoverCase(ts2024, ts2024+1500000, -2000000000, 80000000, 0, 0)
+	recoverDelays(ts2024, ts2024+1500000, 37, 400000, 600000, 3, 4, 37000000000)
+	recoverDelays(math.MaxInt64-safe, math.MinInt64+safe, -1<<57, 1<<57, 1<<57, 1<<57, -1<<57, -1<<57)
 	driftAdd(50000, 0, 60*3600e9)
 	for i := 0; i < n; i++ {
 		timeval(genI64(r))
@@ -400,9 +456,19 @@ func main() {
 			}
 		}
 		// formulas
-		recoverCase(small(r)/4, small(r)/4, small(r)/4, small(r)/4, small(r)/8, small(r)/8)
+		recoverCase(genTime(r), genTime(r), small(r)/4, small(r)/4, small(r)/8, small(r)/8)
+		{
+			utc := lib.Pick(r, int64(0), 37000000000, -37000000000, r.Range(-40, 40)*1000000000, r.Range(-5000000000, 5000000000), small(r)/8)
+			recoverDelays(genTime(r), genTime(r), small(r)/8, small(r)/8, small(r)/8, small(r)/8, small(r)/8, utc)
+		}
 		if i%2 == 0 {
 			formulas(genI64(r)/2, genI64(r)/2, genI64(r)/2, genI64(r)/2, genI64(r)/4, genI64(r)/4, r.Range(-40, 40)*1000000000)
+			// four present-day (or extreme) timestamps a few seconds apart
+			t0 := genTime(r)
+			t1 := t0 + r.Range(-3000000000, 3000000000)
+			t2 := t1 + r.Range(0, 1000000000)
+			t3 := t0 + r.Range(0, 4000000000)
+			formulas(t0, t1, t2, t3, small(r)/8, small(r)/8, lib.Pick(r, int64(0), 37000000000, -37000000000, r.Range(-40, 40)*1000000000))
 		}
 	}
 }
